@@ -331,7 +331,7 @@ def check_pair(na, nb, pred_name, semantic=True):
     from dagrt.transform import fuse_two_dags
     dagA, dagB = method("a", na), method("b", nb)
     try:
-        with kernel.time_limit(20):
+        with kernel.time_limit(120):
             if PREDICATES[pred_name] is None:
                 fused = fuse_two_dags(dagA, dagB)
             else:
